@@ -93,3 +93,33 @@ func TestVerifWitnessC08SignedEntityIsEmittedEntity(t *testing.T) {
 		}
 	}
 }
+
+// C08 (at[part-headers-same-bytes-at-every-depth]@writePart / addFiles), OPEN finding: at nesting depth 0 a part's
+// MIME headers are written with writeHeader, which folds long values; inside a multipart they are written by
+// multipart.Writer.CreatePart, which does not fold. A signed single-part message with a long description (or a
+// signed lone attachment with a long file name containing blanks) is therefore hashed with folded and emitted
+// with unfolded header lines: the signature cannot verify. (Folding the part headers consistently would change
+// output that the pinned tests compare byte for byte.)
+func TestVerifWitnessC08LongPartHeader(t *testing.T) {
+	keypair, err := getDummyKeyPairTLS()
+	if err != nil {
+		t.Fatal(err)
+	}
+	m := NewMsg()
+	_ = m.From("a@b.c")
+	_ = m.To("d@e.f")
+	m.Subject("s")
+	m.SetBodyString(TypeTextPlain, "hello", WithPartContentDescription("a description of the body that is long enough to be folded by writeHeader at depth zero"))
+	if err = m.SignWithTLSCertificate(keypair); err != nil {
+		t.Fatal(err)
+	}
+	hashed := verifSignedEntity(t, m)
+	out := &bytes.Buffer{}
+	if _, err = m.WriteTo(out); err != nil {
+		t.Fatal(err)
+	}
+	emitted := verifFirstSignedPart(t, out.String())
+	if strings.TrimSuffix(hashed, "\r\n") != strings.TrimSuffix(emitted, "\r\n") {
+		t.Errorf("the hashed entity differs from the emitted one\n--- hashed:\n%s\n--- emitted:\n%s", hashed, emitted)
+	}
+}
